@@ -24,6 +24,11 @@ func init() {
 			{"C14.R7", "q", "shared: a split's data size covers only accepted records", c14r7},
 			{"C18.R4", "q", "shared: truncate on all exits", c18r4},
 			{"C18.R2", "q", "shared: keep table (tombstone reservation)", c18r2},
+			{"C09.R9", "q", "shared: resynchronisation probes every block up to the file end", c09r9},
+			{"C06.R8", "q", "shared: a fatal log line stops the process", c06r8},
+			{"C02.R4", "q", "shared: hints trusted only for the covered prefix", c02r4},
+			{"C18.R6", "q", "shared: hint files of a chunk removed by glob", c18r6},
+			{"C02.R8", "q", "shared: rebuild indexes every scanned record", c02r8},
 		},
 	})
 }
